@@ -2,25 +2,10 @@
   The tables bashlex actually runs with (regenerated from /repo on every check run), their
   well-formedness (kernel-evaluated), and the resulting instances of T1.
 -/
-import Bashlex.Gen.Tables
 import Bashlex.LR.Check
 
 namespace Bashlex.LR
 open Bashlex
-
-def realRaw : Raw :=
-  { nTerms := Gen.termNames.length
-    prods := Gen.prodTable
-    actionRows := Gen.actionRows
-    gotoRows := Gen.gotoRows
-    dflt := Gen.defaultedStates
-    endTok := 0          -- "$end"
-    nlTok := 55          -- "NEWLINE" (checked below)
-    reach := Gen.reachCert
-    acc := Gen.accCert
-    preds := Gen.predsCert }
-
-def realTables : Tables := realRaw.toTables
 
 theorem real_symbols : Gen.termNames[realRaw.endTok]? = some "$end" ∧
     Gen.termNames[realRaw.nlTok]? = some "NEWLINE" := by decide
